@@ -19,10 +19,12 @@
    A SECOND proved fragment (Compile/ClosFrag.v .. ClosTop.v, `in_fragment2`, pinned as C07_closure_programs_correct_partial
    in Props/C07.v) covers first-class function values: function literals inside functions and blocks (factories), `modify`
    writes through captured cells, functions returned / stored / passed as arguments and called through variables -- with
-   the statements assignment, modify, print, expression statement, if, while, from (named fresh counter, step 1), return.
+   the statements assignment, modify, print, expression statement, if, if / else, while, from (named fresh counter, step 1),
+   return; expressions with calls anywhere (operands of arithmetic, comparisons, && || !, `(a) or b`, `get a`, arguments)
+   and `self(..)` (pinned for the programs of C15 / C12 in Props/C15.v, Props/C12.v).
    `in_fragment` = in_fragment1 || in_fragment2; fragment_correct holds on both.
-   NOT yet proved: calls in the upper bound of a from loop with a NAMED counter or in a step; break / continue / else /
-   op-assignment / assert / self-calls / anonymous or colliding loop counters TOGETHER WITH the closure features of fragment 2.
+   NOT yet proved: calls in the upper bound of a from loop with a NAMED counter or in a step; break / continue /
+   op-assignment / assert / anonymous or colliding loop counters TOGETHER WITH the closure features of fragment 2.
    Those are covered by the T1/T2/T3 correspondences on every run.
 
    What else is proved and pinned here:
